@@ -40,7 +40,7 @@ let export_s ps = let s = String.concat "," (List.map pkt_s ps) in if s = "" the
 let res_s f = function
   | Ok ks -> if ks = [] then "EMPTY" else String.concat " " (List.map f ks)
   | ErrLeadingSignature -> "ERR:AttributeError"
-  | ErrNoPrimary -> "ERR:StopIteration"
+  | ErrNoPrimary -> "ERR:TypeError"
   | ErrTypeError -> "ERR:TypeError"
 let all_sorted k =
   sortedb item_lt k.p_sigs && List.for_all (fun u -> sortedb sig_lt u.u_sigs) k.p_uids
@@ -52,6 +52,7 @@ let full k =
 let () = run_table [
   "import", (fun toks -> res_s full (import (List.map packet_of toks)));
   "import_f9", (fun toks -> res_s (fun k -> key_s k ^ "|" ^ export_s (export k) ^ "|" ^ export_s (export (copy_prefix k))) (import_prefix_f9 (List.map packet_of toks)));
+  "import_dup", (fun toks -> res_s (fun k -> key_s k) (import_prefix_dup (List.map packet_of toks)));
   "import_f2", (fun toks -> res_s (fun k -> key_s k ^ "|" ^ export_s (export k)) (import_prefix_f2 (List.map packet_of toks)));
   "add", (function [a; b] -> zs (Z.add (zi a) (zi b)) | _ -> failwith "args");
 ]
